@@ -1,4 +1,5 @@
 import TmcgProofs.DkgArith
+import TmcgProofs.Tsig
 /-
   C16 (signing side), algebraic core for `GennaroJareckiKrawczykRabinNTS::Sign` (model:
   `Dkg.signStep`, `Dkg.signAdvance` in Tmcg/Model/Dkg.lean).
@@ -14,6 +15,7 @@ import TmcgProofs.DkgArith
     * `sign_relation_checked` shares that passed the check combine to `g^s = r · y^c`
     * `sign_relation_honest`  the same for `s_j = u_j + c z_j`
     * `sign_verifies`         hence `g^s · (y^c)^{-1} = r`
+    * `sign_ntsVerify`        hence the library's verifier `Tsig.ntsVerify` accepts `(c, s)` under `y`
 -/
 namespace Tmcg.DkgP
 open Tmcg Tmcg.Powm Tmcg.Dkg Tmcg.Grp
@@ -103,5 +105,33 @@ theorem sign_verifies (hG : ValidGrp G) (qual : List Nat) (sj : Nat → Int) (rj
   intro h0
   obtain ⟨j, hj, hj0⟩ := List.mem_map.mp h0
   exact hy j hj hj0
+
+/-- **the output of `Sign` verifies**: if every `s_j` (`j ∈ QUAL`) satisfies the check of step 3
+    against `r_j`, `y_j`, the key is `y = ∏ y_j`, the hashed value is `r = ∏ r_j`, `c = H(m, r)` and
+    `s = Σ s_j mod q` (reduced), then `GennaroJareckiKrawczykRabinNTS::Verify(m, c, s)` returns `true` -/
+theorem sign_ntsVerify (H : Sigma.Hash) (hG : ValidGrp G) (qual : List Nat) (sj rj yj : Nat → Int)
+    (y r m c s : Int)
+    (hyj : ∀ j ∈ qual, cp G (yj j) ≠ 0)
+    (hy : cp G y = (qual.map (fun j => cp G (yj j))).prod)
+    (hr : cp G r = (qual.map (fun j => cp G (rj j))).prod) (hr0 : 0 ≤ r ∧ r < G.p)
+    (hchk : ∀ j ∈ qual, cp G G.g ^ (sj j) = cp G (rj j) * (cp G (yj j)) ^ c)
+    (hs : cq G s = (qual.map (fun j => cq G (sj j))).sum) (hs0 : 0 ≤ s ∧ s < G.q)
+    (hc : c = H (Sigma.shashInput [m, r])) :
+    Tsig.ntsVerify H (gGrp G) y m c s = .ok true := by
+  have hyne : cp G y ≠ 0 := by
+    rw [hy]
+    apply List.prod_ne_zero
+    intro h0
+    obtain ⟨j, hj, hj0⟩ := List.mem_map.mp h0
+    exact hyj j hj hj0
+  haveI : Fact (Nat.Prime (gGrp G).p.natAbs) := ‹Fact (Nat.Prime G.p.natAbs)›
+  obtain ⟨b, hb, hiff⟩ := TsigProofs.ntsVerify_iff (G := gGrp G) H hG.vg y m c s hyne
+  have hv := sign_verifies hG qual sj (fun j => cp G (rj j)) (fun j => cp G (yj j)) c s hyj hchk hs
+  have hacc : TsigProofs.SchnorrAccepts H (gGrp G) y m c s := by
+    refine ⟨hs0.1, hs0.2, r, hr0.1, hr0.2, ?_, hc⟩
+    show cp G r = cp G G.g ^ s * (cp G y ^ c)⁻¹
+    rw [hr, hy]
+    exact hv.symm
+  rw [hb, hiff.mpr hacc]
 
 end Tmcg.DkgP
